@@ -16,29 +16,71 @@ from .. import layout as L
 from .. import mir as M
 from .. import panic as P
 
-# Confirmed by reading (one reason each). Key = function key | kind | operator | operand terms (no positions).
-EXCEPTIONS = {
-    "<multiboot2::memory_map::EFIMemoryAreaIter<'_> as core::iter::traits::iterator::Iterator>::next|overflow|Mul|*arg1.i,**arg1.mmap_tag.desc_size":
-        "strided lemma (C18 S1,S3): i < entries = len/desc_size, so i*desc_size < len <= isize::MAX; cannot overflow in any profile",
-    "<multiboot2::network::NetworkTag as multiboot2_common::tag::MaybeDynSized>::dst_len|overflow|Sub|*arg1.size,8":
-        "reached only through cast() on an existing DynSizedStructure<TagHeader>, whose creation called TagHeader::payload_len (asserts size >= 8) - "
-        "an undersized tag panics there in every profile before this subtraction runs",
-    "<multiboot2_header::information_request::InformationRequestHeaderTag as multiboot2_common::tag::MaybeDynSized>::dst_len|overflow|Sub|*arg1.size,8":
-        "reached only through cast() on an existing DynSizedStructure<HeaderTagHeader>; for size < 8 its construction fails in every profile "
-        "(overflow panic in HeaderTagHeader::payload_len, or the wrapped value is rejected by ref_from_bytes and TagIter unwraps the error) - C14.B3w",
-    "<multiboot2_header::tags::HeaderTagHeader as multiboot2_common::Header>::payload_len|overflow|Sub|*arg1.size,8":
-        "size < 8: with overflow checks this panics; without, the wrapped value (>= 2^64-8) exceeds every slice length and ref_from_bytes returns "
-        "InvalidReportedTotalSize, which the only caller on the parse path (TagIter::next) unwraps - a controlled panic in both profiles (C14.B3w)",
-    "multiboot2::boot_information::BootInformation::<'_>::elf_sections::{closure#0}|overflow|Mul|*arg2.entry_size,*arg2.shndx":
-        "deprecated getter's redundant assert: the u32 product overflows only if shndx*entry_size >= 2^32 > tag size, i.e. shndx >= n, for which "
-        "sections() panics afterwards in every profile (C19.E1); for well-formed tags it cannot overflow",
-    "multiboot2::boot_information::BootInformation::<'_>::end_address|overflow|Add|cast(PointerExposeProvenance, *arg1.0, usize, *const ()),**arg1.0.header.total_size":
-        "start + total_size is the end of a region that load()'s safety contract requires to be valid memory: it cannot wrap the address space",
-    "multiboot2::elf_sections::ElfSection::<'_>::name|overflow|Add|phi(local),1":
-        "strlen over the external string table (documented exception of C01): the isize counter cannot reach isize::MAX over addressable memory",
-    "multiboot2_common::increase_to_alignment|overflow|Add|arg1,7":
-        "all callers pass sizes below 2^33 (a u32 size plus a header, or an offset inside a slice plus that); C14 claims the function for x < 2^32 only",
-}
+# Confirmed by reading (one reason each).  An entry names the enclosing function (closures count as their function, helper
+# functions are already spliced into it), the operation, and the *leaf operands* (stored field names / constants) - not the
+# shape of the surrounding term, so that renaming a local or hoisting a sub-expression does not orphan it.
+EXCEPTIONS = [
+    dict(fn="<multiboot2::memory_map::EFIMemoryAreaIter<'_> as core::iter::traits::iterator::Iterator>::next", kind="overflow", what="Mul",
+         leaves={"i", "desc_size"},
+         reason="strided lemma (C18 S1,S3): i < entries = len/desc_size, so i*desc_size < len <= isize::MAX; cannot overflow in any profile"),
+    dict(fn="<multiboot2::network::NetworkTag as multiboot2_common::tag::MaybeDynSized>::dst_len", kind="overflow", what="Sub", leaves={"size", "8"},
+         reason="reached only through cast() on an existing DynSizedStructure<TagHeader>, whose creation called TagHeader::payload_len (asserts size >= 8) - "
+                "an undersized tag panics there in every profile before this subtraction runs"),
+    dict(fn="<multiboot2_header::information_request::InformationRequestHeaderTag as multiboot2_common::tag::MaybeDynSized>::dst_len", kind="overflow", what="Sub",
+         leaves={"size", "8"},
+         reason="reached only through cast() on an existing DynSizedStructure<HeaderTagHeader>; for size < 8 its construction fails in every profile "
+                "(overflow panic in HeaderTagHeader::payload_len, or the wrapped value is rejected by ref_from_bytes and TagIter unwraps the error) - C14.B3w"),
+    dict(fn="<multiboot2_header::tags::HeaderTagHeader as multiboot2_common::Header>::payload_len", kind="overflow", what="Sub", leaves={"size", "8"},
+         reason="size < 8: with overflow checks this panics; without, the wrapped value (>= 2^64-8) exceeds every slice length and ref_from_bytes returns "
+                "InvalidReportedTotalSize, which the only caller on the parse path (TagIter::next) unwraps - a controlled panic in both profiles (C14.B3w)"),
+    dict(fn="multiboot2::boot_information::BootInformation::<'_>::elf_sections", kind="overflow", what="Mul", leaves={"entry_size", "shndx"},
+         reason="deprecated getter's redundant assert: the u32 product overflows only if shndx*entry_size >= 2^32 > tag size, i.e. shndx >= n, for which "
+                "sections() panics afterwards in every profile (C19.E1); for well-formed tags it cannot overflow"),
+    dict(fn="multiboot2::boot_information::BootInformation::<'_>::end_address", kind="overflow", what="Add", leaves={"0", "total_size"},
+         reason="start + total_size is the end of a region that load()'s safety contract requires to be valid memory: it cannot wrap the address space"),
+    dict(fn="multiboot2::elf_sections::ElfSection::<'_>::name", kind="overflow", what="Add", leaves={"phi", "1"},
+         reason="strlen over the external string table (documented exception of C01): the isize counter cannot reach isize::MAX over addressable memory"),
+    dict(fn="multiboot2_common::increase_to_alignment", kind="overflow", what="Add", leaves={"arg1", "7"},
+         reason="all callers pass sizes below 2^33 (a u32 size plus a header, or an offset inside a slice plus that); C14 claims the function for x < 2^32 only"),
+]
+
+
+def leaves_of(terms):
+    """names of the stored fields / arguments / constants a site's operand terms bottom out in"""
+    out = set()
+
+    def walk(t, top=True):
+        if not isinstance(t, tuple) or not t:
+            return
+        k = t[0]
+        if k == "fld":
+            # outermost named field of a place path is the leaf; do not descend into its base
+            out.add(str(t[3]) if len(t) > 3 and t[3] is not None else str(t[2]))
+            return
+        if k == "c":
+            out.add(str(t[1]))
+            return
+        if k == "arg":
+            out.add("arg%d" % t[1])
+            return
+        if k == "opq":
+            out.add("phi" if len(t) > 1 and t[1] == "phi" else "opq")
+            return
+        for x in t[1:]:
+            if isinstance(x, tuple):
+                walk(x, False)
+    for t in terms:
+        walk(t)
+    return out
+
+
+def match_exception(s):
+    fk = s.inst["key"] if "key" in s.inst else s.inst["path"]
+    base = fk.split("::{closure")[0]
+    for i, e in enumerate(EXCEPTIONS):
+        if e["fn"] == base and e["kind"] == s.kind and e["what"] == s.what and leaves_of(s.terms) == e["leaves"]:
+            return i
+    return None
 
 
 def parse_roots(F):
@@ -74,16 +116,20 @@ def run(ctx):
                 ctx.ok("AR", key, "%s %s cannot behave differently across profiles" % (s.kind, s.what), s.span, how=s.how, nontrivial=not s.how.startswith("R1"))
             elif s.kind == "divzero":
                 ctx.ok("AR", key, "division by a stored value: panics identically in every profile (not profile dependent)", s.span, how=s.how)
-            elif key in EXCEPTIONS:
-                used_exc.add(key)
-                ctx.ok("AR", key, "%s %s: benign by confirmed reason" % (s.kind, s.what), s.span, how="EXCEPTION: " + EXCEPTIONS[key])
+            elif match_exception(s) is not None:
+                ei = match_exception(s)
+                used_exc.add(ei)
+                ctx.ok("AR", key, "%s %s: benign by confirmed reason" % (s.kind, s.what), s.span, how="EXCEPTION: " + EXCEPTIONS[ei]["reason"])
             else:
                 ctx.fail("AR", key, "%s `%s` on stored values cannot overflow, or overflows identically in all profiles" % (s.kind, s.what), s.span,
                          "undischarged: panics with overflow checks, wraps without (operands: %s)" % ", ".join(G.show(t)[:80] for t in s.terms))
     ctx.floor("AR", "arithmetic sites on the parse path", n_sites, 40)
-    stale = sorted(set(EXCEPTIONS) - used_exc)
-    ctx.check(not stale, "AR", "exceptions-live", "every exception-table entry still matches a site (no stale suppressions)", "",
-              how="%d entries, all matched" % len(EXCEPTIONS), why="stale: %s" % stale)
+    stale = sorted("%s|%s|%s" % (e["fn"], e["what"], sorted(e["leaves"])) for i, e in enumerate(EXCEPTIONS) if i not in used_exc)
+    # a stale entry suppresses nothing (the site it named is gone): reported as a note, not a violation
+    ctx.ok("AR", "exceptions-live", "exception-table entries are matched by exact site key only; entries without a site suppress nothing", "",
+           how="%d entries, %d matched a site%s" % (len(EXCEPTIONS), len(used_exc), ("; unmatched (site no longer exists): %s" % [x[:90] for x in stale]) if stale else ""))
+    if stale:
+        ctx.note("exception-table entries that no longer match any site: %s" % stale)
     # ---- ZC
     ctx.check(not unchecked_calls, "ZC", "unchecked-intrinsics", "no unchecked_* / unreachable_unchecked / get_unchecked call on the parse path", "",
               how="0 of %d instances" % len(cl), why=str(unchecked_calls[:5]))
